@@ -330,7 +330,14 @@ func History() {
 			}
 			if rerr != nil {
 				sym.Reach("run-error")
-				sym.Observe("error"+tag, rerr.Error())
+				// without the absolute project path, which differs between the engine's file
+				// system and the temporary directory of a native replay
+				msg := rerr.Error()
+				sym.Observe("error"+tag+"-mentions-cache", strings.Contains(msg, "cache"))
+				if i := strings.LastIndex(msg, "\": "); i >= 0 {
+					msg = msg[i+3:]
+				}
+				sym.Observe("error"+tag, msg)
 			}
 		}
 		if crashed {
